@@ -128,7 +128,7 @@ def ioUpdateGen (io : IOStatic) (F G : ResFn) (root : Root) (dtImport : Rat) (st
     let dt1 := dtImport
     let t2 := getTime io.M st.sim
     let times3 : List Rat := st.times ++ [(t2 + dt1)]
-    let t_idx4 := bisectLeft io.timesSec ((t2 + dtImport))
+    let t_idx4 := bisectLeft io.timesSec ((t2 + dt1))
     match feed io (t_idx4) st.sim with
     | none =>
       .raised { sim := st.sim, times := times3, out := st.out }
@@ -142,7 +142,7 @@ def ioUpdateGen (io : IOStatic) (F G : ResFn) (root : Root) (dtImport : Rat) (st
   else
     let t1 := getTime io.M st.sim
     let times2 : List Rat := st.times ++ [(t1 + dt)]
-    let t_idx3 := bisectLeft io.timesSec ((t1 + dtImport))
+    let t_idx3 := bisectLeft io.timesSec ((t1 + dt))
     match feed io (t_idx3) st.sim with
     | none =>
       .raised { sim := st.sim, times := times2, out := st.out }
